@@ -112,7 +112,8 @@ def build_real(m, rng):
         dat.history_generator = [dat.grid.block[g.block] for g in dat.generatorlist[::-1][:h["g"]]]
     else:
         dat.history_block, dat.history_connection = bl, cl
-        dat.history_generator = [dat.grid.block[g.block] for g in gl]
+        # generator history requests as block objects, or as bare names (what reading a file whose mesh is elsewhere gives)
+        dat.history_generator = [dat.grid.block[g.block] for g in gl] if rng.random() < 0.5 else [g.block for g in gl]
     return dat
 
 
@@ -147,7 +148,7 @@ def check_conversion(rep, pre, act, post, rng, work):
     req0 = {"b": [b.name for b in (dat.short_output.get("block", []) or dat.history_block)],
             "c": [tuple(x.name for x in c.block) for c in (dat.short_output.get("connection", []) or dat.history_connection)],
             # (a kind present in SHORT replaces the history requests of that kind, as Convert.tla says: IF short > 0 THEN short ELSE hist)
-            "g": sorted(set(g.block for g in dat.short_output["generator"]) if dat.short_output.get("generator") else set(b.name for b in dat.history_generator))}
+            "g": sorted(set(g.block for g in dat.short_output["generator"]) if dat.short_output.get("generator") else set((b if isinstance(b, str) else b.name) for b in dat.history_generator))}
     to_t = act["op"] == "to_TOUGH2"
     key = "%s:%s" % (act["op"], "MP" if act["mp"] else "std")
     det = {"pre": pre, "act": act}
@@ -188,6 +189,10 @@ def check_conversion(rep, pre, act, post, rng, work):
         keep = [(g[0], g[1], "COM2" if (to_t and g[2] == "CO2 ") else g[2], g[3], g[4]) for g in keep]
         if grid1 != grid0 or rocks1 != rocks0:
             bad = ("grid-or-rocks-changed", "P4_rest_unchanged")
+        elif got["condscaled"] != bool(post["condscaled"]):
+            # the one documented change to rock types: conductivities rescaled exactly when the options ask for it
+            det["conductivity_rescaled"] = got["condscaled"]
+            bad = ("conductivity-rescaling", "P4_rest_unchanged")
         elif gens1 != keep:
             bad = ("remaining-generators-changed", "P4_rest_unchanged")
         else:
@@ -287,13 +292,16 @@ def export_checks(rep, rng, quick):
         elif c["eosmulti"] != "none":
             dat.simulator = "AUTOUGH2.2"
         gens_nongroup = []
+        naming_mode = rng.choice(["distinct", "unnamed", "collide"])
         for k, g in enumerate(c["gens"]):
             if g["group"]:
                 continue
             blkname = names[g["blk"] - 1]
             if dat.grid.block[blkname].volume <= 0 or dat.grid.block[blkname].volume >= 1.0e25:
                 continue
-            dat.add_generator(t2data.t2generator(name="ge%3d" % k, block=blkname, type="MASS", gx=1.0 + k, ex=1.0e5))
+            # names: distinct, unnamed (Waiwera sources need no name), or colliding with a suffix the export may generate
+            gname = {"distinct": "ge%3d" % k, "unnamed": "", "collide": ["abc", "abc", "abc_1", "abc"][k % 4]}[naming_mode]
+            dat.add_generator(t2data.t2generator(name=gname, block=blkname, type="MASS", gx=1.0 + k, ex=1.0e5))
             gens_nongroup.append(g["blk"] - 1 - natm)
         key = "export:natm%d:%s" % (natm, "arg" if c["eosarg"] != "none" else ("multi" if c["eosmulti"] != "none" else ("sim" if c["eossim"] != "none" else "none")))
         det = {"case": dict((k, c[k]) for k in ("blocks", "natm", "gens", "eosarg", "eosmulti", "eossim")), "block_order": order}
